@@ -25,6 +25,9 @@ SPEC = {
 }
 
 
+SPEC['post'] = [suites.gpx_suite]
+
+
 def run(tier, seed, only=None):
     return mcheck.run_property('C03', tier, seed, only, SPEC)
 
